@@ -34,6 +34,19 @@ def fault_fn(task_name: str, nout: int, fault: dict | None):
             with open(fault["marker"], "w") as f:
                 f.write(str(_os.getpid()))
             k = fault["kind"]
+            if k == "stubborn":
+                # a task body that does not let go: it ignores SIGTERM and keeps running (a native library with its own signal
+                # handling, a long system call); whoever tears the cluster down has to get rid of its worker all the same
+                import time as _time
+
+                _signal.signal(_signal.SIGTERM, _signal.SIG_IGN)
+                _time.sleep(150)
+                return
+            if k == "raise_late":
+                import time as _time
+
+                _time.sleep(2.0)  # the sibling task is well under way by now
+                raise RuntimeError("injected task failure")
             if k == "raise":
                 raise RuntimeError("injected task failure")
             if k == "raise_empty":
@@ -148,6 +161,8 @@ def case_runner(plan: dict, conn) -> None:
         if plan["fault"]["where"] == "task":
             faults[plan["fault"]["task"]] = {"kind": plan["fault"]["kind"], "at": plan["fault"]["at"], "marker": plan["marker"],
                                              "code": plan["fault"].get("code", 3)}
+        if plan["fault"].get("stubborn"):
+            faults[plan["fault"]["stubborn"]] = {"kind": "stubborn", "at": "before", "marker": plan["marker"] + ".sibling", "code": 0}
         job = build_job(plan["job"], fn_factory=fault_fn, faults=faults)
         pre = precompute(job)
         base = plan["port"]
